@@ -11,7 +11,6 @@ from fractions import Fraction as F
 
 from harness.common import frac, close
 
-DISABLED = True  # development
 PID = "C10"
 THEOREMS = [
     "PorepyVerif.C10.after_converged_ts0_eq_iterate",
@@ -141,13 +140,13 @@ def gen_case(rng, tier):
     mode = rng.choices(["inject-check", "inject-forced", "physical-forced", "physical-real"], [45, 25, 20, 10])[0]
     tm = _gen_tm(rng)
     physical = mode.startswith("physical")
-    max_it = rng.choice([0, 1, 1, 2, 2, 3, 4])
+    max_it = rng.choice([0, 1, 1, 2, 2, 3, 4] + ([5, 6] if tier == "thorough" else []))
     n_ts = rng.choice([1, 1, 2, 2, 3])
     n_it = 1 if physical and max_it > 1 else rng.choice([1, 1, 2, 3])
     if physical and n_it > 2:
         n_it = 2
     case = {
-        "mode": mode, "grid": rng.choice(_GRIDS), "tm": tm, "max_it": max_it, "n_it": n_it, "n_ts": n_ts,
+        "mode": mode, "grid": rng.choice(_GRIDS + ([[4, 3], [5, 1]] if tier == "thorough" else [])), "tm": tm, "max_it": max_it, "n_it": n_it, "n_ts": n_ts,
         "init": "0" if physical else frac(rng.choice([F(0), F(1), F(-1, 2), F(3)])),
         "bc": "time" if rng.random() < 0.2 else "const",
     }
@@ -353,8 +352,9 @@ class _Recorder:
         return ev
 
 
-_CACHE = {}
-_TAGS = {}
+_CACHE = {}  # the most recent real run (impl_run and oracle of a case share it)
+_TAGS = {}   # case -> non-trivial?
+_FLAGS = {}  # case -> flags observed per solve (the tape of a physical-real case)
 
 
 def _tm_kwargs(tm):
@@ -401,6 +401,8 @@ def _real_run(case):
     _CACHE[key] = rec
     tags = {e["e"] for e in rec.events}
     _TAGS[key] = "conv" in tags and ("fail" in tags or "raise" in tags)
+    if rec.real_flags:
+        _FLAGS[key] = rec.flags_seen
     return rec
 
 
@@ -460,9 +462,11 @@ def impl_run(case):
 def _tapes_for_model(case):
     if case["mode"] != "physical-real":
         return case["tapes"]
-    rec = _real_run(case)  # flags observed on the real run are the tape
+    key = json.dumps(case, sort_keys=True)
+    if key not in _FLAGS:
+        _real_run(case)
     tapes, j = [], 0
-    for fl in rec.flags_seen:
+    for fl in _FLAGS[key]:  # flags observed on the real run are the tape
         t = []
         for c, d in fl:
             t.append({"inc": str(2 ** j), "c": c, "d": d})
